@@ -11,6 +11,7 @@ import (
 	"sync"
 
 	"github.com/deepteams/webp/internal/dsp"
+	"github.com/deepteams/webp/internal/verifhook"
 )
 
 // minPixelsForParallel is the minimum number of pixels to justify parallel
@@ -176,6 +177,7 @@ func inverseTransform(t *Transform, rowStart, rowEnd int, in, out []uint32) {
 
 	case CrossColorTransform:
 		numWorkers := runtime.GOMAXPROCS(0)
+		numWorkers = verifhook.Workers("lossless.inverseTransform.crossColor", numWorkers)
 		if numWorkers > 1 && numPixels >= minPixelsForParallel {
 			colorSpaceInverseTransformParallel(t, rowStart, rowEnd, in, out, numWorkers)
 		} else {
